@@ -60,7 +60,25 @@ func installPB(c *Ctx) {
 		}
 		return Iface{t: want, v: (*Ptr)(nil)}
 	}
-	in["(*github.com/pentops/j5/internal/j5s/j5convert.conversionVisitor).setJ5Ext"] = func(c *Ctx, a []Value) Value {
+	in["google.golang.org/protobuf/proto.HasExtension"] = func(c *Ctx, a []Value) Value {
+		m := a[0].(Iface)
+		e := a[1].(Iface).v.(*Ptr)
+		mp, _ := m.v.(*Ptr)
+		if mp == nil {
+			return Bool(false)
+		}
+		_, ok := c.exts[extKey{mp.slot, e.slot}]
+		return Bool(ok)
+	}
+	in["google.golang.org/protobuf/proto.ClearExtension"] = func(c *Ctx, a []Value) Value {
+		m := a[0].(Iface)
+		e := a[1].(Iface).v.(*Ptr)
+		if mp, _ := m.v.(*Ptr); mp != nil {
+			delete(c.exts, extKey{mp.slot, e.slot})
+		}
+		return nil
+	}
+	in["(*github.com/pentops/j5/internal/j5s/j5convert.conversionVisitor).setJ5Ext-spike"] = func(c *Ctx, a []Value) Value {
 		ww := a[0].(*Ptr)
 		dest := a[2].(*Ptr)
 		fieldType := cstr(a[3])
